@@ -25,10 +25,12 @@
 (declare-fun post_w (Fun World) World)
 ; wrapL(f): the lazyRecv mkNext builds around a lazy; constL(s): the constant thunk Start builds
 (declare-fun wrapL (Fun) Fun) (declare-fun constL (Fun) Fun)
-(assert (forall ((f Fun) (v TP_V) (w World)) (! (= (lazyr_ret (wrapL f) v w) (lazy_ret f w)) :pattern ((lazyr_ret (wrapL f) v w)))))
-(assert (forall ((f Fun) (v TP_V) (w World)) (! (= (lazyr_w (wrapL f) v w) (lazy_w f w)) :pattern ((lazyr_w (wrapL f) v w)))))
-(assert (forall ((s Fun) (w World)) (! (= (lazy_ret (constL s) w) s) :pattern ((lazy_ret (constL s) w)))))
-(assert (forall ((s Fun) (w World)) (! (= (lazy_w (constL s) w) w) :pattern ((lazy_w (constL s) w)))))
+; defining equations of wrapL / constL, asserted by the engine as ground instances wherever these
+; functions are applied (quantified axioms make failing obligations diverge):
+;   lazyr_ret(wrapL f, v, w) = lazy_ret(f, w)    lazyr_w(wrapL f, v, w) = lazy_w(f, w)
+;   lazy_ret(constL s, w) = s                    lazy_w(constL s, w) = w
+(declare-fun isWrapL (Fun) Bool) (declare-fun unwrapL (Fun) Fun)
+(declare-fun isConstL (Fun) Bool) (declare-fun unconstL (Fun) Fun)
 (define-fun sigOf ((t Int)) Sig (ite (= t 0) sgN (ite (= t 1) sgB (ite (= t 2) sgC sgR))))
 (define-fun ShOfSig ((t Int)) Shape (ite (= t 0) ShNormal (ite (= t 1) ShBreak (ite (= t 2) ShContinue ShReturn))))
 ; one step of the machine (ground unfolding instances of this are asserted by the engine)
